@@ -99,6 +99,36 @@ Theorem C18_generated_history_shape :
 Proof. repeat split; reflexivity. Qed.
 Print Assumptions C18_generated_history_shape.
 
+(* PURGE is the only way the past goes away, and it takes only the purged element's past *)
+Theorem C18_purge_leaves_every_other_element :
+  forall vl x stub id s, v_elem stub = x -> id <> x ->
+    element_at (purge_log vl x stub) id s = element_at vl id s.
+Proof. exact purge_leaves_every_other_element. Qed.
+Print Assumptions C18_purge_leaves_every_other_element.
+
+Theorem C18_purge_removes_the_past_of_the_purged :
+  forall vl x stub s, v_elem stub = x -> s < v_seq stub -> element_at (purge_log vl x stub) x s = None.
+Proof. exact purge_removes_the_past_of_the_purged. Qed.
+Print Assumptions C18_purge_removes_the_past_of_the_purged.
+
+(* Which re-checks a historical read applies (kql/matching.rs, kql/mod.rs): at a coordinate the indexes say
+   nothing, so candidates are rebuilt from the version log and every constraint the index would have enforced
+   - recall state first of all - is decided again on the reconstructed row, for every pattern family. *)
+Theorem C18_generated_historical_rechecks :
+  historical_candidates_rebuilt_from_version_log = true
+  /\ historical_load_reads_element_at = true
+  /\ historical_element_rechecks_active = true
+  /\ historical_element_rechecks_every_matcher_key = true
+  /\ state_constraint_reads_system_state = true
+  /\ historical_tuple_rechecks_active = true
+  /\ historical_tuple_rechecks_endpoints_and_predicate = true
+  /\ proposition_by_id_rechecks_active = true
+  /\ structural_source_rechecks_active = true
+  /\ historical_path_step_rechecks_active = true
+  /\ historical_path_seed_rechecks_active = true.
+Proof. repeat split; reflexivity. Qed.
+Print Assumptions C18_generated_historical_rechecks.
+
 Example C18_nonvacuous :
   let vl := [mkV 1 1 1 1 11 0; mkV 2 1 1 1 21 0; mkV 1 1 2 4 12 0] in
   let later := [mkV 1 1 3 6 13 0; mkV 3 1 1 6 31 0] in
